@@ -286,6 +286,18 @@ func SearchSessionC11(t *tape.Tape) *core.RunResult {
 				}
 			}
 		}
+		// a position with an en-passant right and its twin without one are different positions: the key the
+		// board has kept move by move for the one must not be the key of the other (else the table hands
+		// the entry of one to the other)
+		if cur := gs.g.Pos(); cur.EP >= 0 {
+			twin := cur
+			twin.EP = -1
+			if tb, err := bridge.NewBoard(gs.zt, twin.FEN(0, 1)); err == nil && tb.Hash() == gs.b.Hash() {
+				res.Violate("C11", "tt-key-shared-by-distinct-positions", judged, "%q (reached by play) and the same position without the en-passant right have the same table key %x: an entry stored for one is returned for the other", gs.g.FEN(), uint64(gs.b.Hash()))
+				goto done
+			}
+			res.Probe("en-passant-twin-key-compared")
+		}
 		// the game goes back one ply (always after a materially drawn root, else now and then) ...
 		if (takeBack || t.Chance(1, 6)) && len(gs.g.Moves) > startLen {
 			takeBack = false
